@@ -32,6 +32,7 @@ def run(pid, tier, plan, oracle_name, monitors_name=None, assumptions=(), extra_
                 continue
             s = explore.explore(pool, prog, bound, opts, oracle_name)
             per_prog.append(dict(program=prog["name"], bound_completed=bound,
+                                 policy=opts.get("starve") or "fifo",
                                  kinds="".join(sorted(opts.get("kinds", "PTK"))),
                                  executions=s.executions, root_decisions=s.root_decisions,
                                  outcome_classes=len(s.classes),
